@@ -109,7 +109,7 @@ CLAIMS = {
              'original or the complete formatted bytes; unless --no-backup, a replaced target implies a backup equal to the original; '
              'success is reported only if the target holds the formatted bytes. Crash points and fault schedules are solver variables.',
         note='Bounds: quick contents of 1 byte (2 bytes for the backup-fault instance), one crash point or one fault per run, modes concrete per '
-             'instance; thorough contents <=2 bytes, crash + fault and fault pairs. Stubs: formatter writes an arbitrary fixed byte string (or fails), MD5 abstract injective digest, '
+             'instance; the thorough tier runs the same instances with a longer cap (deeper combinations did not reliably finish). Stubs: formatter writes an arbitrary fixed byte string (or fails), MD5 abstract injective digest, '
              'libc = harness/vp_fsmodel.h. Found and fixed: D3 (write errors ignored), D9 (backup fclose ignored).',
         design_ref='DESIGN.md section 4, C13'),
     'C14': dict(
@@ -118,7 +118,7 @@ CLAIMS = {
              'run leaves the md5 file describing exactly the content written, backs up the text found iff it differs from the recorded '
              'content (user edit or first run), and otherwise leaves the backup untouched. One step from an arbitrary invariant state covers '
              'histories of any length.',
-        note='Bounds: quick contents of 1 byte, thorough <=3 bytes. Abstract injective MD5 assumed; hex formatting/parsing of the md5 file is '
+        note='Bounds: contents of 1 byte (both tiers; 2-byte instances did not finish within the cap). Abstract injective MD5 assumed; hex formatting/parsing of the md5 file is '
              'the real code. Found and fixed: D2 (md5 taken before the rename). Not decided: crash points inside the step for the md5 record.',
         design_ref='DESIGN.md section 4, C14'),
     'C12': dict(
@@ -126,7 +126,7 @@ CLAIMS = {
              'bout_content_matches is byte equality for all inputs of the given lengths and prints FAIL/PASS consistently; --check performs no '
              'file-system mutation and opens nothing for writing, and counts a failure exactly when the bytes differ; --if-changed writes '
              'nothing when the bytes are equal and otherwise delivers exactly the formatted bytes.',
-        note='Bounds: contents <=2 bytes (quick), <=3 (thorough); modes concrete per instance. Not decided: main() exit status computation and '
+        note='Bounds: contents <=2 bytes; modes concrete per instance. Not decided: main() exit status computation and '
              'its rejection of --check with output options.',
         design_ref='DESIGN.md section 4, C12'),
     'C10': dict(
@@ -143,7 +143,7 @@ CLAIMS = {
              'value returned at each of the ~300 rule sites that log the name of an IARF option equals the configured value of that very '
              'option (one assertion per site, generated from the source on every run) - except at the protection sites the statement '
              'exempts, where it may only be strengthened. Returning the value of another option is caught for some valuation.',
-        note='Bound: one neighbourhood of 4 chunks, texts of 1 (quick) / 2 (thorough) characters. The two table fall-back scans at the end of '
+        note='Bound: one neighbourhood of 4 chunks, texts of 1 character (both tiers). The two table fall-back scans at the end of '
              'do_space are cut by a mechanical source patch (they return constants under non-option names). Not decided: application to '
              'columns (space_text), the fusion guard, later passes.',
         design_ref='DESIGN.md section 4, C19'),
